@@ -58,7 +58,13 @@ func genCase(t *rapid.T) c04Case {
 		}
 		return ""
 	}
+	// one statement in three writes every column with its database (db.g1.col), the
+	// form whose database must be rewritten to the copy's physical database
+	fullQual := rapid.IntRange(0, 2).Draw(t, "full_qualified") == 0
 	col := func(name, al, column string, must bool) string {
+		if fullQual && al == "" {
+			return shardfix.DB + "." + name + "." + column
+		}
 		if noDB {
 			if !must && rapid.IntRange(0, 1).Draw(t, "bare") == 0 {
 				return column
@@ -84,7 +90,17 @@ func genCase(t *rapid.T) c04Case {
 		var parts []string
 		n := rapid.IntRange(1, 3).Draw(t, "conds")
 		for i := 0; i < n; i++ {
-			switch shardfix.Uniform(t, "cond", 7) {
+			switch shardfix.Uniform(t, "cond", 12) {
+			case 7:
+				parts = append(parts, col(name, al, "id", must)+" NOT BETWEEN 4 AND 6")
+			case 8:
+				parts = append(parts, "NOT ("+col(name, al, "id", must)+" BETWEEN 2 AND 3)")
+			case 9:
+				parts = append(parts, "5 >= "+col(name, al, "id", must))
+			case 10:
+				parts = append(parts, col(name, al, "a", must)+" <=> NULL")
+			case 11:
+				parts = append(parts, "("+col(name, al, "id", must)+" IN (1,9) OR "+col(name, al, "a", must)+" BETWEEN 1 AND 2)")
 			case 0:
 				parts = append(parts, col(name, al, "id", must)+" = 3")
 			case 1:
@@ -134,7 +150,7 @@ func genCase(t *rapid.T) c04Case {
 		if rapid.IntRange(0, 4).Draw(t, "where") != 0 {
 			c.SQL += " WHERE " + cond(g, al, false)
 		}
-		c.SQL += rapid.SampledFrom([]string{"", "", " LIMIT 10", " ORDER BY id LIMIT 2"}).Draw(t, "tail")
+		c.SQL += rapid.SampledFrom([]string{"", "", " LIMIT 10", " ORDER BY id LIMIT 2", " ORDER BY " + col(g, al, "id", false) + " DESC LIMIT 3"}).Draw(t, "tail")
 	case k < 58: // DELETE
 		c.SQL = "DELETE FROM " + tab(g)
 		if rapid.IntRange(0, 4).Draw(t, "where") != 0 {
@@ -152,7 +168,8 @@ func genCase(t *rapid.T) c04Case {
 		if rapid.IntRange(0, 4).Draw(t, "where") != 0 {
 			c.SQL += " WHERE " + cond(g, al, false)
 		}
-		tail := rapid.SampledFrom([]string{"", "", " ORDER BY id", " LIMIT 3", " ORDER BY " + col(g, al, "id", false) + " DESC LIMIT 2, 3", " GROUP BY a"}).Draw(t, "tail")
+		tail := rapid.SampledFrom([]string{"", "", " ORDER BY id", " LIMIT 3", " ORDER BY " + col(g, al, "id", false) + " DESC LIMIT 2, 3", " GROUP BY a",
+			" ORDER BY " + col(g, al, "a", false) + ", " + col(g, al, "id", false), " GROUP BY " + col(g, al, "a", false)}).Draw(t, "tail")
 		if strings.Contains(fields, "(") && strings.Contains(tail, "ORDER") {
 			tail = ""
 		}
@@ -231,29 +248,22 @@ func wantOf(g shardfix.GlobalSpec) map[loc]int {
 }
 
 // copyProblems compares the statements per (slice, database) with the copies of
-// a write; onlyDup: the only thing wrong is that a copy configured through
-// n > 1 locations got the statement n times.
-func copyProblems(want, got map[loc]int) (probs []string, onlyDup bool) {
-	onlyDup = true
-	for lc, n := range want {
+// a write: each copy exactly once, nothing else.
+func copyProblems(want, got map[loc]int) (probs []string) {
+	for lc := range want {
 		if got[lc] == 0 {
 			probs = append(probs, fmt.Sprintf("copy %s/%s gets nothing", lc.slice, lc.db))
-			onlyDup = false
 		} else if got[lc] > 1 {
 			probs = append(probs, fmt.Sprintf("copy %s/%s gets the statement %d times", lc.slice, lc.db, got[lc]))
-			if got[lc] != n {
-				onlyDup = false
-			}
 		}
 	}
 	for lc := range got {
 		if want[lc] == 0 {
 			probs = append(probs, fmt.Sprintf("%s/%s is not a copy but gets the statement", lc.slice, lc.db))
-			onlyDup = false
 		}
 	}
 	sort.Strings(probs)
-	return probs, onlyDup && len(probs) > 0
+	return probs
 }
 
 // namesProblem checks the names in one executed statement against the copy it
@@ -337,6 +347,9 @@ func checkCase(c c04Case) (o pbt.Outcome) {
 		o.Skip = "no table"
 		return
 	}
+	for _, where := range qualifiedColumnPlaces(ref) {
+		o.Labels = append(o.Labels, "dbqualified_column_in_"+where)
+	}
 	hasAlias := strings.Contains(strings.ToUpper(c.SQL), " AS ") || aliasUsed(ref)
 	want := wantOf(g)
 	o.Labels = append(o.Labels, "stmt_"+kind, fmt.Sprintf("copies_%d", len(want)))
@@ -407,8 +420,20 @@ func checkCase(c c04Case) (o pbt.Outcome) {
 		for _, st := range stmts {
 			got[loc{st.Slice, st.DB}]++
 		}
+		// names first: whatever copy a statement was sent to (also under the open
+		// finding C04-F2), everything in it must belong to that copy's database
+		for _, st := range stmts {
+			if problem := namesProblem(st, globals, origTabs); problem != "" {
+				o.Violation = problem + fmt.Sprintf(" (original %q)", c.SQL)
+				return
+			}
+			if node, err := shardfix.Parse(st.SQL); err == nil && stmtKind(node) != kind {
+				o.Violation = fmt.Sprintf("statement kind changed: %q (original %q)", st.SQL, c.SQL)
+				return
+			}
+		}
 		describe := fmt.Sprintf("global table %s (slices %v locations %v databases %v)", g.Table, g.RuleSlices, g.Locations, g.Databases)
-		// what Gaea would do if it honoured "namespace slice i for the rule's i-th entry" (C04-F2)
+		// the layout Gaea actually addresses: namespace slice i for the rule's i-th entry (open finding C04-F2)
 		g2 := g
 		g2.RuleSlices = nil
 		for i := range g.RuleSlices {
@@ -432,36 +457,16 @@ func checkCase(c c04Case) (o pbt.Outcome) {
 				return
 			}
 		} else {
-			probs, onlyDup := copyProblems(want, got)
+			probs := copyProblems(want, got)
 			if len(probs) > 0 {
 				detail := fmt.Sprintf("%s: %s (sql %q)", describe, strings.Join(probs, "; "), c.SQL)
-				switch {
-				case onlyDup:
-					o.Known, o.KnownWhat = "C04-F1", detail
-				case !isPrefixOrder(g.RuleSlices):
-					if p2, _ := copyProblems(want2, got); len(p2) == 0 {
-						o.Known, o.KnownWhat = "C04-F2", detail
-					} else {
-						o.Violation = detail
-					}
-				default:
+				// C04-F2 (open): accepted only when the statements are exactly one per copy
+				// of the layout Gaea's slice substitution implies
+				if !isPrefixOrder(g.RuleSlices) && len(copyProblems(want2, got)) == 0 {
+					o.Known, o.KnownWhat = "C04-F2", detail
+				} else {
 					o.Violation = detail
 				}
-				return
-			}
-		}
-		for _, st := range stmts {
-			if problem := namesProblem(st, globals, origTabs); problem != "" {
-				problem += fmt.Sprintf(" (original %q)", c.SQL)
-				if kind == "select" && byItemQualified(ref) && onlyAppendedFieldsWrong(st, ref) {
-					o.Known, o.KnownWhat = "C04-F3", problem
-					return
-				}
-				o.Violation = problem
-				return
-			}
-			if node, err := shardfix.Parse(st.SQL); err == nil && stmtKind(node) != kind {
-				o.Violation = fmt.Sprintf("statement kind changed: %q (original %q)", st.SQL, c.SQL)
 				return
 			}
 		}
@@ -477,67 +482,118 @@ func checkCase(c c04Case) (o pbt.Outcome) {
 	return
 }
 
-// byItemQualified: the SELECT has an ORDER BY / GROUP BY column written with a
-// database name.
-func byItemQualified(n ast.StmtNode) bool {
-	s, ok := n.(*ast.SelectStmt)
-	if !ok {
-		return false
+// qualifiedColumnPlaces lists the syntactic places (between, in, compare,
+// isnull, orderby, groupby, fields, assignment) where the statement writes a
+// column with its database name.
+func qualifiedColumnPlaces(n ast.StmtNode) []string {
+	set := map[string]bool{}
+	isQ := func(e ast.ExprNode) bool {
+		c, ok := e.(*ast.ColumnNameExpr)
+		return ok && c.Name.Schema.O != ""
 	}
-	var items []*ast.ByItem
-	if s.OrderBy != nil {
-		items = append(items, s.OrderBy.Items...)
-	}
-	if s.GroupBy != nil {
-		items = append(items, s.GroupBy.Items...)
-	}
-	for _, it := range items {
-		if c, ok := it.Expr.(*ast.ColumnNameExpr); ok && c.Name.Schema.O != "" {
-			return true
-		}
-	}
-	return false
-}
-
-// onlyAppendedFieldsWrong: in the executed SELECT the only names carrying a
-// database that is not the copy's are select-list columns appended after the
-// original select list (the helper columns Gaea adds for ORDER BY / GROUP BY).
-func onlyAppendedFieldsWrong(st shardfix.Stmt, orig ast.StmtNode) bool {
-	node, err := shardfix.Parse(st.SQL)
-	if err != nil {
-		return false
-	}
-	sel, ok := node.(*ast.SelectStmt)
-	os, ok2 := orig.(*ast.SelectStmt)
-	if !ok || !ok2 || sel.Fields == nil || os.Fields == nil {
-		return false
-	}
-	wrong := func(n ast.Node) int {
-		if n == nil {
-			return 0
-		}
-		tabs, cols := shardfix.Names(n)
-		k := 0
-		for _, tr := range tabs {
-			if tr.Schema != "" && tr.Schema != st.DB {
-				k++
+	var walk func(e ast.ExprNode)
+	walk = func(e ast.ExprNode) {
+		switch x := e.(type) {
+		case *ast.ParenthesesExpr:
+			walk(x.Expr)
+		case *ast.UnaryOperationExpr:
+			walk(x.V)
+		case *ast.BinaryOperationExpr:
+			if isQ(x.L) || isQ(x.R) {
+				set["compare"] = true
+			}
+			walk(x.L)
+			walk(x.R)
+		case *ast.BetweenExpr:
+			if isQ(x.Expr) {
+				if x.Not {
+					set["not_between"] = true
+				} else {
+					set["between"] = true
+				}
+			}
+		case *ast.PatternInExpr:
+			if isQ(x.Expr) {
+				if x.Not {
+					set["not_in"] = true
+				} else {
+					set["in"] = true
+				}
+			}
+		case *ast.IsNullExpr:
+			if isQ(x.Expr) {
+				set["isnull"] = true
 			}
 		}
-		for _, cr := range cols {
-			if cr.Schema != "" && cr.Schema != st.DB {
-				k++
+	}
+	by := func(items []*ast.ByItem, name string) {
+		for _, it := range items {
+			if isQ(it.Expr) {
+				set[name] = true
 			}
 		}
-		return k
 	}
-	total := wrong(sel)
-	inAppended := 0
-	for i, fld := range sel.Fields.Fields {
-		if i >= len(os.Fields.Fields) {
-			inAppended += wrong(fld)
+	var joinOn func(rs ast.ResultSetNode)
+	joinOn = func(rs ast.ResultSetNode) {
+		if j, ok := rs.(*ast.Join); ok && j != nil {
+			if j.Left != nil {
+				joinOn(j.Left)
+			}
+			if j.Right != nil {
+				joinOn(j.Right)
+			}
+			if j.On != nil {
+				walk(j.On.Expr)
+			}
 		}
 	}
-	return total > 0 && total == inAppended
+	switch s := n.(type) {
+	case *ast.SelectStmt:
+		if s.Where != nil {
+			walk(s.Where)
+		}
+		if s.From != nil && s.From.TableRefs != nil {
+			joinOn(s.From.TableRefs)
+		}
+		if s.OrderBy != nil {
+			by(s.OrderBy.Items, "orderby")
+		}
+		if s.GroupBy != nil {
+			by(s.GroupBy.Items, "groupby")
+		}
+		if s.Fields != nil {
+			for _, f := range s.Fields.Fields {
+				if f.Expr != nil && isQ(f.Expr) {
+					set["fields"] = true
+				}
+			}
+		}
+	case *ast.UpdateStmt:
+		if s.Where != nil {
+			walk(s.Where)
+		}
+		if s.Order != nil {
+			by(s.Order.Items, "orderby")
+		}
+		for _, a := range s.List {
+			if a.Column.Schema.O != "" {
+				set["assignment"] = true
+			}
+		}
+	case *ast.DeleteStmt:
+		if s.Where != nil {
+			walk(s.Where)
+		}
+		if s.Order != nil {
+			by(s.Order.Items, "orderby")
+		}
+	}
+	var out []string
+	for k := range set {
+		out = append(out, k)
+	}
+	sort.Strings(out)
+	return out
 }
 
 func aliasUsed(n ast.StmtNode) bool {
